@@ -21,7 +21,7 @@ ASSUMPTIONS = [
     "weakest fit for the technique (no schedule or fault in the property): claimed as bounded liveness of whole fault-free executions",
 ]
 TIERS = {"quick": {"worlds": 2000, "wall": 160, "limit": 120.0}, "thorough": {"worlds": 30000, "wall": 1700, "limit": 400.0}}
-GATES = ("nontrivial", "banded", "cfg.default", "cfg.newton_type", "cfg.step_solver_type", "cfg.step_control_type")
+GATES = ("restarts", "nontrivial", "banded", "cfg.default", "cfg.newton_type", "cfg.step_solver_type", "cfg.step_control_type")
 CFG = [{}, {"newton_type": "Full"}, {"newton_type": "ActiveSet"}, {"step_solver_type": "Standard"}, {"step_solver_type": "Extended"}, {"step_solver_type": "Asymmetric"}, {"step_control_type": "Exact"}]
 
 
@@ -32,7 +32,8 @@ def generate(rng, seed, index, tier):
     kw = dict(CFG[int(rng.integers(0, len(CFG)))])
     kw["iteration_limit"] = 5000
     kw = gen.quiet_params(kw)
-    return gen.base_world(seed, ID, index, spec, x0, y0, kw)
+    restart = str(rng.choice(["fresh", "same"])) if rng.random() < 0.25 else None
+    return gen.base_world(seed, ID, index, spec, x0, y0, kw, case={"restart": restart})
 
 
 def case(world):
@@ -50,5 +51,16 @@ def case(world):
         viol.append(V(ID, "not-solved", "a QP of the stated class ended %s after %d trials" % (ex.outcome, len(ex.trials)), None, ctx, sig_extra=ex.outcome.split(":")[0]))
     else:
         viol += [dict(v, clause="solved-but-" + v["clause"]) for v in kkt_check(ex, ID, None, ctx)]
+        if (world.get("case") or {}).get("restart"):
+            # the returned point is an in-bounds start like any other: solving again from it (same solver object or a
+            # fresh one) must end Optimal as well
+            import numpy as np
+
+            r = ex.result
+            fresh = (world.get("case") or {}).get("restart") == "fresh"
+            ex2 = execute(world, x0=np.array(r.x, copy=True), y0=np.array(r.y, copy=True)) if fresh else execute(world, problem=ex.problem, solver=ex.solver, x0=np.array(r.x, copy=True), y0=np.array(r.y, copy=True))
+            stats["restarts"] = 1
+            if ex2.result is None or ex2.status != "Optimal":
+                viol.append(V(ID, "not-solved", "a solve started from the solution just returned (%s solver) ended %s after %d trials" % ("fresh" if fresh else "same", ex2.outcome, len(ex2.trials)), {"restart": True}, ctx, sig_extra="restart:" + ex2.outcome.split(":")[0]))
     stats["nontrivial"] = 1
-    return {"violations": viol, "stats": stats, "keys": [repr(ctx["cfg"]) + ex.traj_digest()[:14]], "executions": 1, "sample": small_sample(world, {"outcome": ex.outcome, "max": {"iterations_to_optimal": len(ex.trials) if ex.status == "Optimal" else 0}}), "max": {"iterations_to_optimal": len(ex.trials) if ex.status == "Optimal" else 0}}
+    return {"violations": viol, "stats": stats, "keys": [repr(ctx["cfg"]) + ex.traj_digest()[:14]], "executions": 1 + int(stats.get("restarts", 0)), "sample": small_sample(world, {"outcome": ex.outcome, "max": {"iterations_to_optimal": len(ex.trials) if ex.status == "Optimal" else 0}}), "max": {"iterations_to_optimal": len(ex.trials) if ex.status == "Optimal" else 0}}
